@@ -206,7 +206,7 @@ def run(ctx):
       g = g + w[i] * ((1 - np.sqrt(dcd[i] / dab[i])) * np.outer(vab[i], vab[i]) + (1 - np.sqrt(dab[i] / dcd[i])) * np.outer(vcd[i], vcd[i]))
     return g
   cases = [(sd, d, 1.0, tol) for sd in (0, 1, 2) for d in (3, 4) for tol in (1e-5, 1e-6)] + [(0, 4, 30.0, 1e-5)]
-  for sd, d, scale, tol in (cases if thorough else cases[::2] + cases[-1:]):
+  for sd, d, scale, tol in (cases if thorough else cases[1:-1:2] + cases[-1:]):
     Q = scale * np.random.RandomState(sd).randn(40, 4, d)
     with warnings.catch_warnings():
       warnings.simplefilter('ignore')
